@@ -275,6 +275,9 @@ func (g *flowGen) finish() {
 		if p.Par.COE {
 			feat["coe"] = true
 		}
+		if len(p.Par.Emitters) > 0 {
+			feat["emitters"] = true
+		}
 	}
 	if p.Wrap {
 		feat["wrap"] = true
